@@ -81,10 +81,11 @@ class Recorder:
     """stands in for `fb._rng`: a real numpy Generator whose every returned array is logged (optionally with
     edge values written into it first). A draw method it does not know is logged in `unknown`."""
 
-    def __init__(self, gen, inject_rng=None, p_inject=0.0):
+    def __init__(self, gen, inject_rng=None, p_inject=0.0, stubborn=0):
         self._gen = gen
         self._inj = inject_rng
         self._p = p_inject
+        self._stubborn = stubborn  # so many rounds in a row the first pending coordinate draws u = 1 - 2^-53 (rejected)
         self.log = []  # (method, flat list of returned numbers)
         self.unknown = []
 
@@ -116,6 +117,11 @@ class Recorder:
             self.unknown.append("random(None)")
         arr = np.array(self._gen.random(size), dtype=float, ndmin=1)
         arr = self._edge(arr, U_EDGES)
+        if self._stubborn > 0 and arr.size:
+            # a coordinate that is rejected round after round (probability 2^-k, so a plain run never shows it): the loop has
+            # to go on until IT is accepted — there is no number of rounds after which an unfiltered draw may be kept
+            arr.reshape(-1)[0] = 1.0 - 2.0 ** -53
+            self._stubborn -= 1
         self.log.append(("random", [float(x) for x in arr.reshape(-1)]))
         return arr
 
@@ -179,7 +185,8 @@ def build(case):
     inj = None
     if case.get("inject", 0) > 0:
         inj = common.sub_rng(int(case["seed"]), "inject")
-    rec = Recorder(np.random.Generator(np.random.PCG64(int(case["seed"]))), inj, case.get("inject", 0))
+    rec = Recorder(np.random.Generator(np.random.PCG64(int(case["seed"]))), inj, case.get("inject", 0),
+                   stubborn=int(case.get("stubborn", 0)))
     common.set_rng(fb, rec)
     trace = []
     depth = [0]
@@ -285,6 +292,7 @@ class FBStep(common.Suite):
                 "power": power,
                 "seed": rng.randint(1, 2**31 - 1),
                 "inject": rng.choice([0, 0, 0.02, 0.2]),
+                "stubborn": rng.choice([0, 0, 0, 0, 18, 40]),
                 "via": "run" if rng.random() < 0.2 else "step",
             }
 
@@ -329,6 +337,11 @@ class FBStep(common.Suite):
             "step_count_delta": sc1 - sc0,
             "masses": [float(x) for x in masses.reshape(-1)],
         }
+        # the last rejection round as drawn: (zeta, u) of every coordinate that was still pending when the loop ended
+        unis = [v for m, v in rec.log if m == "uniform"]
+        rnds = [v for m, v in rec.log if m == "random"]
+        if unis and rnds and len(unis[-1]) == len(rnds[-1]):
+            obs["last_round"] = [list(unis[-1]), list(rnds[-1])]
         if terminated:
             p1 = atoms.get_positions()
             obs.update({
@@ -452,6 +465,22 @@ class FBStep(common.Suite):
             if not abs(obs["gamma"][i]) <= GMAX:
                 out.append(("step:gamma-not-clipped", f"coordinate {i}: gamma={obs['gamma'][i]!r}"))
                 break
+        # every coordinate of the LAST round was accepted there (the loop ends when nothing is pending — not after some number
+        # of rounds): its u is below the published density at its zeta; coordinates are recognised by their final zeta
+        if "last_round" in obs:
+            zs, us = obs["last_round"]
+            for z, u in zip(zs, us):
+                idx = [i for i, zi in enumerate(obs["zeta"]) if zi == z]
+                if len(idx) != 1:
+                    continue
+                g = obs["gamma"][idx[0]]
+                ref = 1.0 if g == 0 else bal_neyts(g, z)
+                if ref is None:
+                    continue
+                if u >= ref + 1e-9:
+                    out.append(("step:kept-a-rejected-draw", f"coordinate {idx[0]}: zeta={z!r} kept with u={u!r} >= P={ref!r} "
+                                                            f"(gamma={g!r}) after {obs['rounds']} rejection rounds"))
+                    break
         return out
 
     def classify(self, case, obs):
